@@ -77,14 +77,21 @@ def step (s : St) (line : String) : St :=
     let ops := ",".intercalate ((s.vals.toList.filter fun r => r.op != "pin" ∧ r.op != "lit").map fun r => opBase r.op)
     let allZero := s.vals.toList.all fun r => r.w == 0
     let s := { s with crashCases := s.crashCases + 1 }
-    s.propfail s!"op={if s.mode == "op" then ops else "dag"} class=simulation-throws/{if allZero then "design-without-state-bits" else "other"} ops=[{ops}] what=[{(" ".intercalate rest).take 160}]"
+    if allZero then
+      s.propfail s!"op=any class=design-without-state-bits/simulation-throws ops=[{ops}] what=[{(" ".intercalate rest).take 160}]: every signal of the design is zero bits wide"
+    else
+      s.propfail s!"op={if s.mode == "op" then ops else "dag"} class=simulation-throws ops=[{ops}] what=[{(" ".intercalate rest).take 160}]"
   | "crash" :: rest =>
     let ops := ",".intercalate ((s.vals.toList.filter fun r => r.op != "pin" ∧ r.op != "lit").map fun r => opBase r.op)
     let zero := s.vals.toList.any fun r => r.w == 0 ∧ r.err == ""
-    let cls := if s.mode == "const" then (if zero then "crash/construction-time-eval-zero-width" else "crash/construction-time-eval")
-               else if s.mode == "lit" then "crash/literal" else (if zero then "crash/simulation-zero-width" else "crash/simulation")
+    let allZero := s.vals.toList.all fun r => r.w == 0
     let s := { s with crashCases := s.crashCases + 1 }
-    s.propfail s!"op={if s.mode == "lit" then "literal" else if s.mode == "op" then ops else "dag"} class={cls} signal=[{" ".intercalate rest}] ops=[{ops}] lit=[{s.litStr}]: the code under test crashed"
+    let (opn, cls) :=
+      if s.mode == "const" then ("dag", if zero then "crash/construction-time-eval-zero-width" else "crash/construction-time-eval")
+      else if s.mode == "lit" then ("literal", "crash/literal")
+      else if allZero then ("any", "design-without-state-bits/crash")
+      else (if s.mode == "op" then ops else "dag", if zero then "crash/simulation-zero-width" else "crash/simulation")
+    s.propfail s!"op={opn} class={cls} signal=[{" ".intercalate rest}] ops=[{ops}] lit=[{s.litStr}]: the code under test crashed"
   | "stim" :: k :: _ => { s with stim := k, haveAbs := false, stims := s.stims + 1 }
   | "stimc" :: k :: _ => { s with stim := k, stims := s.stims + 1 }
   | ["pv", k, bits] => { s with env := s.env.setIfInBounds k.toNat! (BV4.ofString bits) }
